@@ -93,6 +93,8 @@ type Profile struct {
 	MaxFiles  int
 	Comments  bool // attach leading comments (descriptions)
 	CrossPkg  bool // bias towards several files, a sub-package first, and references across files
+	Collide   bool // add descriptors whose split names (path joined by "_") coincide
+	Clash     bool // add a message whose exposed oneof and a field get the same JSON property name
 }
 
 // Case is one generated descriptor set.
@@ -144,7 +146,7 @@ var msgNames = []string{"Foo", "Bar", "Baz", "Qux", "FooKeys", "FooState", "FooD
 var nestedNames = []string{"Bar", "Inner", "Kind", "Part", "Keys", "Leaf"}
 var enumNames = []string{"Kind", "Status", "Color", "Bar_Kind", "Mode"}
 var fieldNames = []string{"id", "name", "keys", "value", "foo_id", "bar", "baz", "kind", "status", "created_at", "items", "tags", "child", "parent", "data", "amount", "count", "flag", "type", "a_b", "a1", "fooBar", "x", "y", "z", "note", "ref", "when", "meta", "extra"}
-var oneofNames = []string{"type", "type", "choice", "kind_of", "opt"}
+var oneofNames = []string{"type", "type", "choice", "kind_of", "opt", "foo_bar"}
 
 // Generate builds one descriptor set.
 func Generate(r *vh.Rand, p Profile, deps []*descriptorpb.FileDescriptorProto) *Case {
@@ -182,6 +184,14 @@ func Generate(r *vh.Rand, p Profile, deps []*descriptorpb.FileDescriptorProto) *
 	}
 	if nFiles > 1 {
 		g.tag("multi-file")
+	}
+	if p.Collide {
+		addCollision(c.Gen[0], r.Chance(50))
+		g.tag("split-name-collision-crafted")
+	}
+	if p.Clash {
+		addOneofClash(c.Gen[0])
+		g.tag("exposed-oneof-json-name-clash-crafted")
 	}
 	if p.Supported {
 		repairSupported(c.Gen)
@@ -1489,7 +1499,7 @@ func AllEnums(fd protoreflect.FileDescriptor) []protoreflect.EnumDescriptor {
 // ones it accepts, so that descriptor sets of the Supported profile mostly
 // reflect (C15 needs successful exports): flatten cycles, enum rules naming
 // undefined numbers, legacy "keys" entity inference on a message without a
-// known suffix, the unspecified key format, and string format / list rule
+// known suffix, and string format / list rule
 // combinations that exclude each other.
 func repairSupported(files []*descriptorpb.FileDescriptorProto) {
 	type msgInfo struct {
@@ -1586,7 +1596,6 @@ func repairSupported(files []*descriptorpb.FileDescriptorProto) {
 			}
 			vc, _ := proto.GetExtension(f.Options, validate.E_Field).(*validate.FieldConstraints)
 			lc, _ := proto.GetExtension(f.Options, list_j5pb.E_Field).(*list_j5pb.FieldConstraint)
-			fo, _ := proto.GetExtension(f.Options, ext_j5pb.E_Field).(*ext_j5pb.FieldOptions)
 			// enum rules name defined numbers only
 			fixEnum := func(er *validate.EnumRules, tn string) {
 				if er == nil {
@@ -1622,14 +1631,6 @@ func repairSupported(files []*descriptorpb.FileDescriptorProto) {
 					}
 				}
 				proto.SetExtension(f.Options, validate.E_Field, vc)
-			}
-			if fo != nil {
-				if k := fo.GetKey(); k != nil {
-					if kf, ok := k.Type.(*ext_j5pb.KeyField_Format_); ok && kf.Format == ext_j5pb.KeyField_FORMAT_UNSPECIFIED {
-						kf.Format = ext_j5pb.KeyField_FORMAT_ID62
-						proto.SetExtension(f.Options, ext_j5pb.E_Field, fo)
-					}
-				}
 			}
 			if f.GetType() == descriptorpb.FieldDescriptorProto_TYPE_STRING && lc.GetString_() != nil {
 				sr := vc.GetString()
@@ -1679,4 +1680,59 @@ func repairSupported(files []*descriptorpb.FileDescriptorProto) {
 			}
 		}
 	}
+}
+
+
+// addCollision appends `message Col { enum Kind; message Inner }`, `message Col_Kind` (with a field
+// of type Col.Kind, optionally carrying an enum rule) and `message Col_Inner` (with a field of type
+// Col.Inner): an enum and a message, and two messages, whose schema names coincide.
+func addCollision(fd *descriptorpb.FileDescriptorProto, withRule bool) {
+	pkg := "." + fd.GetPackage()
+	opt := descriptorpb.FieldDescriptorProto_LABEL_OPTIONAL.Enum()
+	col := &descriptorpb.DescriptorProto{
+		Name: proto.String("Col"),
+		EnumType: []*descriptorpb.EnumDescriptorProto{{
+			Name: proto.String("Kind"),
+			Value: []*descriptorpb.EnumValueDescriptorProto{
+				{Name: proto.String("KIND_UNSPECIFIED"), Number: proto.Int32(0)},
+				{Name: proto.String("KIND_A"), Number: proto.Int32(1)},
+			},
+		}},
+		NestedType: []*descriptorpb.DescriptorProto{{
+			Name: proto.String("Inner"),
+			Field: []*descriptorpb.FieldDescriptorProto{
+				{Name: proto.String("n"), Number: proto.Int32(1), Label: opt, Type: descriptorpb.FieldDescriptorProto_TYPE_INT32.Enum()},
+			},
+		}},
+	}
+	k := &descriptorpb.FieldDescriptorProto{Name: proto.String("k"), Number: proto.Int32(1), Label: opt,
+		Type: descriptorpb.FieldDescriptorProto_TYPE_ENUM.Enum(), TypeName: proto.String(pkg + ".Col.Kind")}
+	if withRule {
+		k.Options = &descriptorpb.FieldOptions{}
+		proto.SetExtension(k.Options, validate.E_Field, &validate.FieldConstraints{Type: &validate.FieldConstraints_Enum{Enum: &validate.EnumRules{In: []int32{1}}}})
+	}
+	colKind := &descriptorpb.DescriptorProto{Name: proto.String("Col_Kind"), Field: []*descriptorpb.FieldDescriptorProto{k}}
+	colInner := &descriptorpb.DescriptorProto{Name: proto.String("Col_Inner"), Field: []*descriptorpb.FieldDescriptorProto{
+		{Name: proto.String("i"), Number: proto.Int32(1), Label: opt, Type: descriptorpb.FieldDescriptorProto_TYPE_MESSAGE.Enum(), TypeName: proto.String(pkg + ".Col.Inner")},
+		{Name: proto.String("s"), Number: proto.Int32(2), Label: opt, Type: descriptorpb.FieldDescriptorProto_TYPE_STRING.Enum()},
+	}}
+	fd.MessageType = append(fd.MessageType, col, colKind, colInner)
+}
+
+
+// addOneofClash appends `message Clash { oneof foo_bar { option (j5.ext.v1.oneof).expose = true;
+// string a = 1; } string fooBar = 2; }`: protoc and protodesc accept it (JSON-name conflicts are
+// checked between fields only); the exposed oneof's property is named lowerCamel("foo_bar") = "fooBar".
+func addOneofClash(fd *descriptorpb.FileDescriptorProto) {
+	opt := descriptorpb.FieldDescriptorProto_LABEL_OPTIONAL.Enum()
+	oo := &descriptorpb.OneofOptions{}
+	proto.SetExtension(oo, ext_j5pb.E_Oneof, &ext_j5pb.OneofOptions{Expose: true})
+	fd.MessageType = append(fd.MessageType, &descriptorpb.DescriptorProto{
+		Name:      proto.String("Clash"),
+		OneofDecl: []*descriptorpb.OneofDescriptorProto{{Name: proto.String("foo_bar"), Options: oo}},
+		Field: []*descriptorpb.FieldDescriptorProto{
+			{Name: proto.String("a"), Number: proto.Int32(1), Label: opt, Type: descriptorpb.FieldDescriptorProto_TYPE_STRING.Enum(), OneofIndex: proto.Int32(0)},
+			{Name: proto.String("fooBar"), Number: proto.Int32(2), Label: opt, Type: descriptorpb.FieldDescriptorProto_TYPE_STRING.Enum()},
+		},
+	})
 }
